@@ -25,7 +25,8 @@ def verify(wt, md, sid):
     dst = [os.path.join(wt, pkgdir, "zz_mutdemo%d_test.go" % i) for i, _ in enumerate(demos)]
     def demo():
         for s, d in zip(demos, dst): shutil.copy(s, d)
-        rc, out = sh(["go", "test", "-vet=off", "-count=1", "-timeout", "300s", "-run", run, "./" + pkgdir + "/"], wt)
+        race = ["-race"] if meta.get("demo_race") else []
+        rc, out = sh(["go", "test", "-vet=off", "-count=1", "-timeout", "300s"] + race + ["-run", run, "./" + pkgdir + "/"], wt)
         for d in dst: os.remove(d)
         return rc, out
     rc_clean, out_clean = demo()
